@@ -1,15 +1,760 @@
 //! C01: additional seed sources (generators of the other properties) and permanent
 //! regression cases for defects that were found and fixed.
 
-use crate::asm::{Asm, Enc};
+use crate::asm::{Asm, Enc, Field, FieldKind};
+use crate::gen::{cfi as gcfi, expr as gexpr, index as gindex, info as ginfo, line as gline, lists as glists};
+use crate::model::cfi::Bases;
+use crate::model::forms;
+use crate::model::index::SectKind;
+use crate::model::line::{self as mline, Ins as LIns};
+use crate::model::lists::{self as mlists, Flavor, Item as LItem};
 use crate::mon::entries::{Secs, P};
-use crate::props::c01::{run_case, Seed, ENTRIES};
-use crate::rt::Ctx;
+use crate::props::c01::{run_case, Seed, Slot, ENTRIES};
+use crate::rt::{mix64, Ctx, Rng};
 use gimli::SectionId;
 
-/// Seeds produced by the section generators of the other property modules.
-pub fn extra_seeds(_ctx: &Ctx) -> Vec<Seed> {
-    vec![]
+// ------------------------------------------------------------------ generator seeds
+
+/// The i-th encoding of a generator's rotation: both byte orders and formats within any 4
+/// consecutive seeds, all versions and all address sizes within any 8 (phases from `salt`).
+fn enc_rot(i: usize, salt: u64) -> Enc {
+    let s = mix64(salt);
+    let le = (i as u64 + s) % 2 == 0;
+    let fmt64 = ((i as u64 / 2) + (s >> 1)) % 2 == 1;
+    let version = 2 + ((i as u64 + (s >> 2)) % 4) as u16;
+    let addr = [8u8, 4, 2, 1][((i as u64 + i as u64 / 4 + (s >> 4)) % 4) as usize];
+    Enc::new(le, fmt64, version, addr)
+}
+
+fn shift(fields: &[Field], by: usize) -> Vec<Field> {
+    fields.iter().map(|f| Field { off: f.off + by, ..f.clone() }).collect()
+}
+
+fn leb_len_at(b: &[u8]) -> usize {
+    let mut n = 0;
+    while n < b.len() && n < 10 {
+        n += 1;
+        if b[n - 1] & 0x80 == 0 {
+            break;
+        }
+    }
+    n
+}
+
+// ---- .debug_line
+
+struct LineOut {
+    line: Vec<u8>,
+    fields: Vec<Field>,
+    line_str: Vec<u8>,
+    str_: Vec<u8>,
+}
+
+/// Field map of one encoded line-number instruction at absolute offset `off`.
+fn line_ins_fields(out: &mut Vec<Field>, off: usize, b: &[u8], ins: &LIns, enc: Enc) {
+    if b.is_empty() {
+        return;
+    }
+    out.push(Field { off, len: 1, kind: FieldKind::Opcode, name: "line.opcode" });
+    match ins {
+        LIns::AdvanceLine(_) => out.push(Field { off: off + 1, len: b.len() - 1, kind: FieldKind::Sleb, name: "line.sleb_operand" }),
+        LIns::FixedAdvancePc(_) => out.push(Field { off: off + 1, len: 2, kind: FieldKind::Other, name: "line.u16_operand" }),
+        LIns::AdvancePc(_) | LIns::SetFile(_) | LIns::SetColumn(_) | LIns::SetIsa(_) | LIns::UnknownStd(..) => {
+            if b.len() > 1 {
+                out.push(Field { off: off + 1, len: b.len() - 1, kind: FieldKind::Uleb, name: "line.uleb_operand" });
+            }
+        }
+        LIns::EndSequence { .. } | LIns::SetAddress { .. } | LIns::DefineFile { .. } | LIns::SetDiscriminator { .. } | LIns::UnknownExt(..) => {
+            let n = leb_len_at(&b[1..]);
+            out.push(Field { off: off + 1, len: n, kind: FieldKind::Length, name: "line.ext_len" });
+            let sub = 1 + n;
+            if sub < b.len() {
+                out.push(Field { off: off + sub, len: 1, kind: FieldKind::Opcode, name: "line.ext_opcode" });
+            }
+            let p = sub + 1;
+            if p < b.len() {
+                match ins {
+                    LIns::SetAddress { .. } => {
+                        let l = (enc.addr as usize).min(b.len() - p);
+                        out.push(Field { off: off + p, len: l, kind: FieldKind::Address, name: "line.set_address" });
+                    }
+                    LIns::SetDiscriminator { .. } => out.push(Field { off: off + p, len: b.len() - p, kind: FieldKind::Uleb, name: "line.discriminator" }),
+                    LIns::DefineFile { name, .. } => {
+                        let l = name.len().min(b.len() - p);
+                        out.push(Field { off: off + p, len: l, kind: FieldKind::Str, name: "line.define_file_name" });
+                        let q = p + l + 1;
+                        if q < b.len() {
+                            out.push(Field { off: off + q, len: b.len() - q, kind: FieldKind::Uleb, name: "line.define_file_operands" });
+                        }
+                    }
+                    _ => out.push(Field { off: off + p, len: b.len() - p, kind: FieldKind::Data, name: "line.ext_payload" }),
+                }
+            }
+        }
+        _ => {}
+    }
+}
+
+/// One line program unit at offset 0 of `.debug_line`.  `style` selects a realistic header
+/// (style % 3 != 2) or the sampled, possibly hostile, one; VLIW (maximum_operations > 1) for
+/// odd styles in version >= 4.  The program is a seeded random part followed by a fixed tail
+/// that contains every standard and extended opcode, incl. a DW_LNE_set_address in the
+/// middle of a sequence.
+fn mk_line(r: &mut Rng, enc: Enc, style: u64) -> LineOut {
+    let mut tabs = gline::Tabs::default();
+    let mut h = gline::sample_hdr(r, enc, &mut tabs, gline::HdrOpts { strict_tables: style % 2 == 0, small: true });
+    if style % 3 != 2 {
+        h.min_inst_len = if style % 4 == 3 { 4 } else { 1 };
+        h.line_base = -5;
+        h.line_range = 14;
+        h.opcode_base = if style % 5 == 4 { 10 } else { 13 };
+        h.std_lengths = [0u8, 1, 1, 1, 1, 0, 0, 0, 1, 0, 0, 1][..h.opcode_base as usize - 1].to_vec();
+        h.default_is_stmt = true;
+        h.default_is_stmt_raw = 1;
+        h.pad = vec![];
+        h.max_ops = if enc.version >= 4 && style % 2 == 1 { *r.pick(&[2u8, 4, 255]) } else { 1 };
+        // two directories and two files that the program's DW_LNS_set_file can refer to, so that
+        // the read->write converters accept the unit and reach the writer
+        use mline::AV;
+        if enc.version <= 4 {
+            h.dirs_v4 = vec![b"sub".to_vec()];
+            h.files_v4 = vec![(b"a.c".to_vec(), 0, 0, 0), (b"b.c".to_vec(), 1, 3, 4)];
+        } else {
+            let pf = if style % 4 == 1 { mline::FORM_LINE_STRP } else { mline::FORM_STRING };
+            let path = |tabs: &mut gline::Tabs, s: &[u8]| if pf == mline::FORM_LINE_STRP { AV::LineStrp(tabs.line_str.add(s)) } else { AV::Str(s.to_vec()) };
+            h.dir_fmt = vec![(mline::LNCT_PATH, pf)];
+            h.dirs_v5 = vec![vec![path(&mut tabs, b"/d")], vec![path(&mut tabs, b"sub")]];
+            h.file_fmt = vec![(mline::LNCT_PATH, pf), (mline::LNCT_DIRECTORY_INDEX, mline::FORM_UDATA)];
+            h.files_v5 = vec![vec![path(&mut tabs, b"a.c"), AV::Udata(0)], vec![path(&mut tabs, b"b.c"), AV::Udata(1)]];
+        }
+    }
+    let n = 4 + r.usize(8);
+    let mut random_part = gline::gen_program(r, &h, n, style % 2 == 0, true);
+    if style % 3 != 2 {
+        // keep file numbers inside the table so that the converters do not stop there
+        for i in random_part.iter_mut() {
+            if let LIns::SetFile(v) = i {
+                *v = if enc.version >= 5 { *v % 2 } else { 1 + *v % 2 };
+            }
+        }
+    }
+    let mask = enc.addr_mask();
+    let a0 = 0x10 & mask;
+    let mut tail = vec![
+        LIns::SetAddress { addr: a0, extra: vec![] },
+        LIns::Special(h.opcode_base.saturating_add(3)),
+        LIns::AdvancePc(3),
+        LIns::Copy,
+        LIns::SetAddress { addr: (a0 + 0x40) & mask, extra: vec![] },
+        LIns::Special(h.opcode_base.saturating_add(1)),
+        LIns::AdvanceLine(-2),
+        LIns::SetFile(1),
+        LIns::SetColumn(7),
+        LIns::NegateStmt,
+        LIns::SetBasicBlock,
+        LIns::Copy,
+        LIns::ConstAddPc,
+        LIns::FixedAdvancePc(4),
+        LIns::SetPrologueEnd,
+        LIns::SetEpilogueBegin,
+        LIns::SetIsa(2),
+        LIns::SetDiscriminator { v: 1, extra: vec![] },
+        LIns::Copy,
+    ];
+    if enc.version <= 4 {
+        tail.push(LIns::DefineFile { name: b"f".to_vec(), dir: 0, mtime: 0, size: 0, extra: vec![] });
+        tail.push(LIns::AdvancePc(1));
+        tail.push(LIns::Copy);
+    }
+    tail.push(LIns::EndSequence { extra: vec![] });
+    // opcodes the header does not define cannot be encoded as such
+    tail.retain(|i| match i {
+        LIns::Copy => h.has_std(mline::LNS_COPY),
+        LIns::AdvancePc(_) => h.has_std(mline::LNS_ADVANCE_PC),
+        LIns::AdvanceLine(_) => h.has_std(mline::LNS_ADVANCE_LINE),
+        LIns::SetFile(_) => h.has_std(mline::LNS_SET_FILE),
+        LIns::SetColumn(_) => h.has_std(mline::LNS_SET_COLUMN),
+        LIns::NegateStmt => h.has_std(mline::LNS_NEGATE_STMT),
+        LIns::SetBasicBlock => h.has_std(mline::LNS_SET_BASIC_BLOCK),
+        LIns::ConstAddPc => h.has_std(mline::LNS_CONST_ADD_PC),
+        LIns::FixedAdvancePc(_) => h.has_std(mline::LNS_FIXED_ADVANCE_PC),
+        LIns::SetPrologueEnd => h.has_std(mline::LNS_SET_PROLOGUE_END),
+        LIns::SetEpilogueBegin => h.has_std(mline::LNS_SET_EPILOGUE_BEGIN),
+        LIns::SetIsa(_) => h.has_std(mline::LNS_SET_ISA),
+        LIns::Special(op) => *op >= h.opcode_base,
+        _ => true,
+    });
+    // the fixed sequence first: converters stop at the first instruction they do not support
+    let mut ins = tail;
+    ins.extend(random_part);
+    let mut a = Asm::new(enc.le);
+    a.map = false;
+    let mut spans = vec![];
+    for i in &ins {
+        let off = a.len();
+        gline::emit_ins(&mut a, &h, i, 0);
+        spans.push((off, a.len()));
+    }
+    let built = gline::assemble(&h, &a.buf, &[], &[]);
+    let mut fields = built.fields.clone();
+    for (i, (s, e)) in ins.iter().zip(&spans) {
+        line_ins_fields(&mut fields, built.prog_off + s, &a.buf[*s..*e], i, enc);
+    }
+    LineOut { line: built.line, fields, line_str: tabs.line_str.bytes, str_: tabs.str_.bytes }
+}
+
+fn secoff_form(enc: Enc) -> u16 {
+    if enc.version >= 4 {
+        forms::F_SEC_OFFSET
+    } else if enc.fmt64 {
+        forms::F_DATA8
+    } else {
+        forms::F_DATA4
+    }
+}
+
+fn line_seeds(ctx: &Ctx, n: usize, out: &mut Vec<Seed>) {
+    for i in 0..n {
+        let enc = enc_rot(i, ctx.seed ^ 0x11e);
+        let mut r = Rng::new(mix64(ctx.seed ^ 0x11e0_0000 ^ i as u64));
+        let lo = mk_line(&mut r, enc, i as u64 + ctx.seed % 6);
+        // a minimal unit that refers to the program, so that Dwarf::unit and the converters reach it
+        let root = glists::DieSpec {
+            tag: glists::dwc::TAG_COMPILE_UNIT,
+            attrs: vec![
+                glists::AttrSpec { name: glists::dwc::AT_NAME, form: glists::dwc::FORM_STRING, val: glists::FormVal::Str(b"n.c".to_vec()) },
+                glists::AttrSpec { name: 0x1b, form: glists::dwc::FORM_STRING, val: glists::FormVal::Str(if i % 4 == 3 { vec![] } else { b"/d".to_vec() }) },
+                glists::secoff_attr(enc, 0x10, 0),
+            ],
+        };
+        let unit = glists::build_unit(enc, glists::dwc::UT_COMPILE, 0, &root, &[]);
+        let mut secs = Secs::default();
+        secs.set(SectionId::DebugLine, lo.line);
+        secs.set(SectionId::DebugLineStr, lo.line_str);
+        secs.set(SectionId::DebugStr, lo.str_);
+        secs.set(SectionId::DebugInfo, unit.info);
+        secs.set(SectionId::DebugAbbrev, unit.abbrev);
+        out.push(Seed {
+            name: format!("gl{i}"),
+            enc,
+            secs,
+            origin: "gen.line",
+            fields: vec![(Slot::Sec(SectionId::DebugLine), lo.fields)],
+            entries: &["line", "conv.line", "dwarf", "conv.dwarf_from", "conv.stepwise"],
+        });
+    }
+}
+
+// ---- .debug_info / .debug_abbrev / .debug_types
+
+fn small_val(r: &mut Rng, form: u16, enc: Enc) -> ginfo::AttrVal {
+    let mut v = ginfo::random_val(r, form, enc);
+    if let ginfo::Val::Bytes(b) = &mut v.val {
+        b.truncate(9);
+    }
+    v
+}
+
+const INFO_NAMES: &[u16] = &[
+    0x01, 0x02, 0x03, 0x0b, 0x10, 0x11, 0x12, 0x13, 0x1b, 0x1c, 0x2e, 0x31, 0x3a, 0x40, 0x49, 0x52, 0x55, 0x58, 0x72, 0x73, 0x74, 0x76, 0x8c, 0x2111, 0x2131, 0x2132, 0x2133, 0x2137,
+];
+
+fn list_slot(flavor: Flavor) -> SectionId {
+    match flavor {
+        Flavor::Ranges => SectionId::DebugRanges,
+        Flavor::Loc | Flavor::GnuLle => SectionId::DebugLoc,
+        Flavor::Rle => SectionId::DebugRngLists,
+        Flavor::Lle => SectionId::DebugLocLists,
+    }
+}
+
+/// Keep expressions short; with `valid` replace them by small well-formed programs (random
+/// bytes rarely decode, and the converters parse every expression).
+fn shrink_item(it: LItem, valid: bool) -> LItem {
+    const GOOD: [&[u8]; 4] = [&[0x50], &[0x91, 0x7c], &[0x75, 0x08, 0x9f], &[0x53, 0x93, 0x04]];
+    let fix = move |mut v: Vec<u8>| -> Vec<u8> {
+        if valid {
+            GOOD[v.len() % 4].to_vec()
+        } else {
+            v.truncate(5);
+            v
+        }
+    };
+    let cut = |d: Option<Vec<u8>>| d.map(fix);
+    match it {
+        LItem::Pair(a, b, d) => LItem::Pair(a, b, cut(d)),
+        LItem::StartxEndx(a, b, d) => LItem::StartxEndx(a, b, cut(d)),
+        LItem::StartxLength(a, b, d) => LItem::StartxLength(a, b, cut(d)),
+        LItem::OffsetPair(a, b, d) => LItem::OffsetPair(a, b, cut(d)),
+        LItem::StartEnd(a, b, d) => LItem::StartEnd(a, b, cut(d)),
+        LItem::StartLength(a, b, d) => LItem::StartLength(a, b, cut(d)),
+        LItem::Default(v) => LItem::Default(fix(v)),
+        other => other,
+    }
+}
+
+struct ListOut {
+    sec: glists::ListSec,
+    addr: glists::AddrTable,
+}
+
+/// Two lists of `flavor` (offsets table in version 5) and the `.debug_addr` table their index
+/// operands refer to.
+fn mk_list(r: &mut Rng, enc: Enc, flavor: Flavor, k: usize, n_items: usize, valid_exprs: bool) -> ListOut {
+    let mask = enc.addr_mask();
+    let entries = glists::gen_addr_entries(r, mask, 4);
+    let addr = glists::build_addr_table(r, enc, if enc.version >= 5 { 1 } else { 0 }, &entries);
+    let cx = glists::ItemCtx { flavor, addr: enc.addr, addrs: &entries, base: glists::unit_base(k, mask), gnu_v5_kinds: k % 2 == 1 };
+    let gen = |r: &mut Rng, n: usize| -> Vec<LItem> {
+        glists::gen_items(r, &cx, n).into_iter().map(|it| shrink_item(it, valid_exprs)).filter(|it| glists::encodable(it, flavor, enc.addr)).collect()
+    };
+    let l0 = gen(r, n_items);
+    let l1 = gen(r, 2);
+    let sec = glists::build_list_section(r, enc, flavor, &[(l0, true), (l1, k % 3 != 0)], k % 2, true, 0);
+    ListOut { sec, addr }
+}
+
+fn flavor_for(version: u16, loc: bool, k: usize) -> Flavor {
+    match (version >= 5, loc) {
+        (true, false) => Flavor::Rle,
+        (true, true) => Flavor::Lle,
+        (false, false) => Flavor::Ranges,
+        (false, true) => {
+            if k % 2 == 0 {
+                Flavor::Loc
+            } else {
+                Flavor::GnuLle
+            }
+        }
+    }
+}
+
+fn info_seeds(ctx: &Ctx, n: usize, out: &mut Vec<Seed>) {
+    use ginfo::{AbbrevDecl, AbbrevTable, AttrDecl, AttrVal, InfoCfg, Item, UnitCfg, UnitKind, Val};
+    let all_forms: Vec<u16> = forms::FORMS.iter().map(|f| f.0).filter(|f| *f != forms::F_INDIRECT).collect();
+    for i in 0..n {
+        let enc = enc_rot(i, ctx.seed ^ 0x1f0);
+        let mut r = Rng::new(mix64(ctx.seed ^ 0x1f00_0000 ^ i as u64));
+        let mut secs = Secs::default();
+        let cfg;
+        if i % 2 == 0 {
+            // a small but realistic compilation unit with the attributes gimli interprets
+            let so = secoff_form(enc);
+            let v5 = enc.version >= 5;
+            let block = if enc.version >= 4 { forms::F_EXPRLOC } else { forms::F_BLOCK1 };
+            let high_form = [forms::F_DATA4, forms::F_UDATA, forms::F_ADDR, forms::F_DATA8, forms::F_DATA1, forms::F_SDATA][(i / 2) % 6];
+            let rl = mk_list(&mut r, enc, flavor_for(enc.version, false, i), i, 3, true);
+            let ll = mk_list(&mut r, enc, flavor_for(enc.version, true, i / 2), i, 2, true);
+            let lo = mk_line(&mut r, enc, 0);
+            let mask = enc.addr_mask();
+            let low = [0x1000 & mask, mask - 0x20, 0x10, mask >> 1][(i / 2) % 4];
+            let mut cu = vec![
+                (AttrDecl::new(0x03, forms::F_STRING), AttrVal::new(Val::Bytes(b"a.c".to_vec()))),
+                (AttrDecl::new(0x1b, forms::F_STRP), AttrVal::u(0)),
+                (AttrDecl::new(0x13, forms::F_DATA2), AttrVal::u(0x0c)),
+                (AttrDecl::new(0x11, forms::F_ADDR), AttrVal::u(low)),
+                (AttrDecl::new(0x12, high_form), AttrVal::u(if high_form == forms::F_ADDR { low.wrapping_add(0x40) & mask } else { 0x40 })),
+                (AttrDecl::new(0x10, so), AttrVal::u(0)),
+            ];
+            if v5 {
+                cu.push((AttrDecl::new(0x72, so), AttrVal::u(8)));
+                cu.push((AttrDecl::new(0x73, so), AttrVal::u(rl.addr.base)));
+                cu.push((AttrDecl::new(0x74, so), AttrVal::u(rl.sec.table_base)));
+                cu.push((AttrDecl::new(0x8c, so), AttrVal::u(ll.sec.table_base)));
+            }
+            let sub = vec![
+                (AttrDecl::new(0x01, forms::F_REF4), AttrVal::new(Val::Ref { item: 4, delta: 0 })),
+                (AttrDecl::new(0x03, if v5 { forms::F_STRX1 } else { forms::F_STRP }), AttrVal::u(1)),
+                (AttrDecl::new(0x11, if v5 { forms::F_ADDRX } else { forms::F_ADDR }), AttrVal::u(if v5 { 1 } else { low.wrapping_add(4) & mask })),
+                (AttrDecl::new(0x12, forms::F_DATA1), AttrVal::u(0x10)),
+                (AttrDecl::new(0x40, block), AttrVal::new(Val::Bytes(vec![0x9c]))),
+                (AttrDecl::new(0x3a, forms::F_DATA1), AttrVal::u(1)),
+            ];
+            let mut var = vec![
+                (AttrDecl::new(0x03, forms::F_STRING), AttrVal::new(Val::Bytes(b"v".to_vec()))),
+                (AttrDecl::new(0x02, block), AttrVal::new(Val::Bytes(vec![0x91, 0x7c, 0x93, 0x04]))),
+                (AttrDecl::new(0x49, forms::F_REF_UDATA), AttrVal { leb_len: 2, ..AttrVal::new(Val::Ref { item: 0, delta: 0 }) }),
+                (AttrDecl::new(0x0b, forms::F_DATA4), AttrVal::u(4)),
+            ];
+            if v5 {
+                let mut d = AttrDecl::new(0x3b, forms::F_IMPLICIT_CONST);
+                d.implicit_const = -3;
+                var.push((d, AttrVal::new(Val::Nothing)));
+            }
+            let (rform, rval) = if v5 && i % 4 == 0 { (forms::F_RNGLISTX, 0) } else { (so, rl.sec.lists[0].off) };
+            let (lform, lval) = if v5 && i % 4 == 2 { (forms::F_LOCLISTX, 1) } else { (so, ll.sec.lists[0].off) };
+            let blk = vec![(AttrDecl::new(0x55, rform), AttrVal::u(rval)), (AttrDecl::new(0x02, lform), AttrVal::u(lval)), (AttrDecl::new(0x52, forms::F_ADDR), AttrVal::u(low))];
+            let mk = |code: u64, tag: u16, children: bool, v: &Vec<(AttrDecl, AttrVal)>| AbbrevDecl { code, tag, children, attrs: v.iter().map(|x| x.0.clone()).collect() };
+            let vals = |v: &Vec<(AttrDecl, AttrVal)>| -> Vec<AttrVal> { v.iter().map(|x| x.1.clone()).collect() };
+            let table = AbbrevTable { decls: vec![mk(1, 0x11, true, &cu), mk(2, 0x2e, true, &sub), mk(3, 0x34, false, &var), mk(4, 0x0b, false, &blk)], terminated: i % 4 != 2 };
+            let items = vec![
+                Item::Die { abbrev: 0, vals: vals(&cu), code_len: 0 },
+                Item::Die { abbrev: 1, vals: vals(&sub), code_len: 0 },
+                Item::Die { abbrev: 2, vals: vals(&var), code_len: 0 },
+                Item::Null,
+                Item::Die { abbrev: 3, vals: vals(&blk), code_len: 0 },
+                Item::Null,
+            ];
+            let kind = if v5 && i % 8 == 4 { UnitKind::Skeleton } else { UnitKind::Compile };
+            cfg = InfoCfg { le: enc.le, tables: vec![table], units: vec![UnitCfg::new(enc, kind, 0, items)], abbrev_lead: 0 };
+            secs.set(list_slot(flavor_for(enc.version, false, i)), rl.sec.bytes);
+            secs.set(list_slot(flavor_for(enc.version, true, i / 2)), ll.sec.bytes);
+            secs.set(SectionId::DebugAddr, rl.addr.bytes);
+            secs.set(SectionId::DebugLine, lo.line);
+            secs.set(SectionId::DebugLineStr, if lo.line_str.is_empty() { b"ls\0".to_vec() } else { lo.line_str });
+        } else {
+            // every form over the rotation, in random order, random payloads, 1-2 units of every kind
+            let start = (i / 2) * 12 + r.usize(4);
+            let mut fi = 0usize;
+            let mut decls = vec![];
+            for k in 0..4u64 {
+                let mut attrs = vec![];
+                for _ in 0..3 + r.usize(2) {
+                    let form = if r.chance(1, 8) { forms::F_INDIRECT } else { all_forms[(start + fi) % all_forms.len()] };
+                    fi += 1;
+                    let mut d = AttrDecl::new(*r.pick(INFO_NAMES), form);
+                    d.implicit_const = r.boundary() as i64;
+                    attrs.push(d);
+                }
+                r.shuffle(&mut attrs);
+                decls.push(AbbrevDecl { code: if k == 3 && r.chance(1, 3) { 0x1_0000_0005 } else { k + 1 }, tag: *r.pick(&[0x11u16, 0x2e, 0x34, 0x0b, 0x24, 0x41, 0x4a, 0x3c]), children: k % 2 == 0, attrs });
+            }
+            let table = AbbrevTable { decls: decls.clone(), terminated: true };
+            let shapes = ginfo::forest_depths(4);
+            let mut units = vec![];
+            let n_units = 1 + i / 2 % 2;
+            for u in 0..n_units {
+                let depths = shapes[r.usize(shapes.len())].clone();
+                let (items, _) = ginfo::items_from_depths(
+                    &depths,
+                    &[false, r.chance(1, 3), false, false],
+                    |node, flag| {
+                        // abbreviations 0 and 2 have the children flag
+                        if flag { (node % 2) * 2 } else { 1 + (node % 2) * 2 }
+                    },
+                    |_| vec![],
+                );
+                // fill in the values (needs the abbreviation chosen for each node)
+                let items: Vec<Item> = items
+                    .into_iter()
+                    .map(|it| match it {
+                        Item::Die { abbrev, code_len, .. } => {
+                            let vals = decls[abbrev].attrs.iter().map(|d| small_val(&mut r, d.form, enc)).collect();
+                            Item::Die { abbrev, vals, code_len }
+                        }
+                        x => x,
+                    })
+                    .collect();
+                let kinds: Vec<UnitKind> = UnitKind::ALL.iter().copied().filter(|k| k.valid_for(enc.version)).collect();
+                let kind = kinds[(i / 2 + u) % kinds.len()];
+                let mut uc = UnitCfg::new(enc, kind, 0, items);
+                uc.type_offset = ginfo::TypeOffset::Item(0);
+                units.push(uc);
+            }
+            cfg = InfoCfg { le: enc.le, tables: vec![table], units, abbrev_lead: r.usize(3) };
+            let mut a = Asm::new(enc.le);
+            for v in [0x10u64, 0x2000, enc.addr_mask(), 0] {
+                a.uint(enc.addr as usize, v);
+            }
+            secs.set(SectionId::DebugAddr, a.buf);
+            secs.set(SectionId::DebugLineStr, b"ls\0x\0".to_vec());
+        }
+        let b = cfg.build();
+        secs.set(SectionId::DebugStr, b"/d\0fn\0a-long-name\0\0".to_vec());
+        {
+            let mut a = Asm::new(enc.le);
+            let m = a.begin_length(enc.fmt64);
+            a.u16(5).u16(0);
+            for v in [0u64, 3, 6, 17] {
+                a.word(enc.fmt64, v);
+            }
+            a.end_length(m);
+            secs.set(SectionId::DebugStrOffsets, a.buf);
+        }
+        let mut fields = vec![(Slot::Sec(SectionId::DebugInfo), b.info_fields.clone()), (Slot::Sec(SectionId::DebugAbbrev), b.abbrev_fields.clone())];
+        if !b.debug_types.is_empty() {
+            fields.push((Slot::Sec(SectionId::DebugTypes), b.types_fields.clone()));
+        }
+        secs.set(SectionId::DebugInfo, b.debug_info);
+        secs.set(SectionId::DebugAbbrev, b.debug_abbrev);
+        secs.set(SectionId::DebugTypes, b.debug_types);
+        out.push(Seed { name: format!("gi{i}"), enc, secs, origin: "gen.info", fields, entries: &["units", "abbrevs", "dwarf", "conv.dwarf_from", "conv.stepwise"] });
+    }
+}
+
+// ---- range / location lists
+
+fn lists_seeds(ctx: &Ctx, n: usize, out: &mut Vec<Seed>) {
+    use glists::dwc;
+    const FLAVORS: [Flavor; 5] = [Flavor::Rle, Flavor::Lle, Flavor::Ranges, Flavor::Loc, Flavor::GnuLle];
+    for i in 0..n {
+        let flavor = FLAVORS[i % 5];
+        let mut enc = enc_rot(i, ctx.seed ^ 0x115);
+        let v5 = matches!(flavor, Flavor::Rle | Flavor::Lle);
+        if v5 {
+            enc.version = 5;
+        } else if enc.version == 5 {
+            enc.version = 4;
+        }
+        let mut r = Rng::new(mix64(ctx.seed ^ 0x1150_0000 ^ i as u64));
+        let lo = mk_list(&mut r, enc, flavor, i / 5 + (ctx.seed % 8) as usize, 5, (i / 5) % 2 == 0);
+        let mask = enc.addr_mask();
+        let base = glists::unit_base(i / 5 + (ctx.seed % 8) as usize, mask);
+        let at = if flavor.is_loc() { dwc::AT_LOCATION } else { dwc::AT_RANGES };
+        let mut root_attrs = vec![glists::addr_attr(&mut r, enc, dwc::AT_LOW_PC, base, None).0];
+        if v5 {
+            root_attrs.push(glists::base_attr(dwc::AT_ADDR_BASE, lo.addr.base));
+            root_attrs.push(glists::base_attr(if flavor.is_loc() { dwc::AT_LOCLISTS_BASE } else { dwc::AT_RNGLISTS_BASE }, lo.sec.table_base));
+        } else if flavor == Flavor::GnuLle {
+            root_attrs.push(glists::base_attr(dwc::AT_GNU_ADDR_BASE, lo.addr.base));
+        }
+        let first = lo.sec.lists.first().map(|l| l.off).unwrap_or(0);
+        let second = lo.sec.lists.get(1).map(|l| l.off).unwrap_or(0);
+        if v5 && i % 2 == 0 {
+            root_attrs.push(glists::AttrSpec { name: at, form: if flavor.is_loc() { dwc::FORM_LOCLISTX } else { dwc::FORM_RNGLISTX }, val: glists::FormVal::Uleb(0) });
+        } else {
+            root_attrs.push(glists::secoff_attr(enc, at, first));
+        }
+        let child = glists::DieSpec { tag: if flavor.is_loc() { dwc::TAG_VARIABLE } else { dwc::TAG_LEXICAL_BLOCK }, attrs: vec![glists::secoff_attr(enc, at, second)] };
+        let root = glists::DieSpec { tag: dwc::TAG_COMPILE_UNIT, attrs: root_attrs };
+        let unit = glists::build_unit(enc, dwc::UT_COMPILE, 0, &root, &[child]);
+        let mut secs = Secs::default();
+        let slot = list_slot(flavor);
+        secs.set(slot, lo.sec.bytes);
+        secs.set(SectionId::DebugAddr, lo.addr.bytes);
+        secs.set(SectionId::DebugInfo, unit.info);
+        secs.set(SectionId::DebugAbbrev, unit.abbrev);
+        out.push(Seed { name: format!("gr{i}"), enc, secs, origin: "gen.lists", fields: vec![(Slot::Sec(slot), lo.sec.fields)], entries: &["lists", "dwarf", "conv.dwarf_from", "conv.stepwise"] });
+    }
+}
+
+// ---- call frame information
+
+fn cfi_catalogue(initial: u64) -> Vec<gcfi::Ins> {
+    let mut v = vec![];
+    for b in (0x00u8..=0x16).chain([0x2d, 0x2e, 0x41, 0x7f, 0x83, 0xbf, 0xc3]) {
+        let x = (b as u64 * 7) % 17;
+        let y = match b {
+            0x01 => initial.wrapping_add(8),
+            0x11 | 0x12 | 0x13 | 0x15 => (-(b as i64) * 3) as u64,
+            _ => (b as u64 * 5) % 40,
+        };
+        v.push(gcfi::Ins::for_opcode_byte(b, x, y));
+    }
+    v
+}
+
+fn cfi_seeds(ctx: &Ctx, n: usize, out: &mut Vec<Seed>) {
+    use gcfi::{CieSpec, FdeSpec, HdrSpec, Item, Kind, SectionSpec};
+    let augs: [&[u8]; 8] = [b"zR", b"", b"zPLR", b"zRS", b"zLR", b"zP", b"zR", b"eh"];
+    let fde_encs = [0x1bu8, 0x00, 0x03, 0x0b, 0x04, 0x01, 0x09, 0x0c, 0x33, 0x23, 0x02];
+    let factors = [(1u64, -8i64), (4, -4), (1, 1), (2, -1), (8, 8), (1, -128), (255, 127), (0x40, -0x40)];
+    for i in 0..n {
+        let enc = enc_rot(i, ctx.seed ^ 0xcf1);
+        let mut r = Rng::new(mix64(ctx.seed ^ 0xcf10_0000 ^ i as u64));
+        let mask = enc.addr_mask();
+        let initial = [0x2000u64, 0x1000, 0x20, mask - 0x50][i % 4] & mask;
+        let range = 0x40u64 & mask;
+        let cat = cfi_catalogue(initial);
+        // every other seed is accepted by write::FrameTable::from (no DW_CFA_set_loc or unknown
+        // opcodes, absolute pointer encodings), so that the conversion reaches the writer
+        let convertible = i % 2 == 0;
+        let pick = |r: &mut Rng, from: usize, k: usize| -> Vec<gcfi::Ins> {
+            let mut v: Vec<gcfi::Ins> = (0..k).map(|j| cat[(from + j) % cat.len()].clone()).collect();
+            if convertible {
+                v.retain(|x| !matches!(x, gcfi::Ins::SetLoc(_) | gcfi::Ins::Raw { .. } | gcfi::Ins::NegateRaState | gcfi::Ins::RestoreState));
+            }
+            v.insert(r.usize(v.len() + 1), gcfi::Ins::AdvanceLoc(1 + r.below(3) as u8));
+            v
+        };
+        let (ca, da) = factors[(i + (ctx.seed % 8) as usize) % factors.len()];
+        let mut secs = Secs::default();
+        let mut fields = vec![];
+        for kind in [Kind::DebugFrame, Kind::EhFrame] {
+            let eh = kind == Kind::EhFrame;
+            let from = (i * 11 + if eh { 5 } else { 0 }) % cat.len();
+            let cie = CieSpec {
+                fmt64: enc.fmt64 && !eh || (eh && i % 5 == 4),
+                version: if eh { [1u8, 1, 3][i % 3] } else { [1u8, 3, 4][i % 3] },
+                aug: if eh && convertible { [&b"zR"[..], b"", b"zRS", b"zLR"][(i / 2) % 4].to_vec() } else if eh { augs[i % augs.len()].to_vec() } else if i % 4 == 1 { b"zR".to_vec() } else { vec![] },
+                v4_addr_size: enc.addr,
+                v4_seg_size: 0,
+                code_align: ca,
+                data_align: da,
+                ra: [16u64, 30, 0x81][i % 3],
+                lsda_enc: if convertible { [0x00u8, 0x03, 0x0b, 0x04][(i / 2) % 4] } else { [0x00u8, 0x1b, 0x03, 0xff][i % 4] },
+                pers_enc: if convertible { [0x00u8, 0x03, 0x04, 0x0b][(i / 2) % 4] } else { [0x00u8, 0x9b, 0x03, 0x04][(i / 2) % 4] },
+                pers_target: 0x3000,
+                fde_enc: if convertible { [0x00u8, 0x03, 0x0b, 0x04, 0x0c][(i / 2 + (ctx.seed % 5) as usize) % 5] } else { fde_encs[(i + (ctx.seed % 11) as usize) % fde_encs.len()] },
+                aug_pad: i % 3 / 2,
+                insns: pick(&mut r, from, 4),
+                pad_nops: r.usize(4),
+            };
+            let fde0 = FdeSpec { cie: 0, fmt64: cie.fmt64, initial, range, lsda_target: 0x3100, aug_pad: 0, insns: pick(&mut r, from + 4, 8), pad_nops: r.usize(3) };
+            let fde1 = FdeSpec { cie: 0, fmt64: false, initial: initial.wrapping_add(range) & mask, range: 0x10 & mask, lsda_target: 0, aug_pad: 0, insns: pick(&mut r, from + 12, 5), pad_nops: 0 };
+            let mut items = vec![Item::Cie(cie), Item::Fde(fde0), Item::Fde(fde1)];
+            if eh && i % 2 == 0 {
+                items.push(Item::ZeroLength { fmt64: false });
+            }
+            let spec = SectionSpec {
+                kind,
+                le: enc.le,
+                addr_size: enc.addr,
+                aarch64: i % 4 == 3,
+                bases: Bases { section: Some(0x1000), text: Some(0x2000), data: Some(0x3000), func: None },
+                raw_pointers: false,
+                items,
+            };
+            let built = gcfi::build(&spec);
+            if eh {
+                let entries: Vec<(u64, u64)> = built.fdes().map(|(_, f)| (f.initial.clone().unwrap_or(initial), 0x1000 + f.offset)).collect();
+                let hs = HdrSpec {
+                    le: enc.le,
+                    addr_size: enc.addr,
+                    version: 1,
+                    eh_frame_ptr_enc: [0x1bu8, 0x03, 0x04, 0x00, 0x01, 0x0b][i % 6],
+                    fde_count_enc: [0x03u8, 0x04, 0x01, 0x02, 0x0c, 0x00][(i + (ctx.seed % 6) as usize) % 6],
+                    table_enc: [0x3bu8, 0x03, 0x04, 0x0b, 0x33, 0x3c, 0x1b, 0x01][(i + (ctx.seed % 8) as usize) % 8],
+                    eh_frame_addr: 0x1000,
+                    entries,
+                    bases: Bases { section: Some(0x800), text: Some(0x2000), data: Some(0x800), func: None },
+                };
+                let hb = gcfi::build_hdr(&hs);
+                fields.push((Slot::Sec(SectionId::EhFrameHdr), hb.fields));
+                secs.set(SectionId::EhFrameHdr, hb.bytes);
+                fields.push((Slot::Sec(SectionId::EhFrame), built.fields));
+                secs.set(SectionId::EhFrame, built.bytes);
+            } else {
+                fields.push((Slot::Sec(SectionId::DebugFrame), built.fields));
+                secs.set(SectionId::DebugFrame, built.bytes);
+            }
+        }
+        out.push(Seed { name: format!("gc{i}"), enc, secs, origin: "gen.cfi", fields, entries: &["debug_frame", "eh_frame", "eh_frame_hdr", "conv.frame"] });
+    }
+}
+
+// ---- index family
+
+fn index_seeds(ctx: &Ctx, n: usize, out: &mut Vec<Seed>) {
+    for i in 0..n {
+        let enc = enc_rot(i, ctx.seed ^ 0x1d5);
+        let mut r = Rng::new(mix64(ctx.seed ^ 0x1d50_0000 ^ i as u64));
+        let mut secs = Secs::default();
+        let mut fields = vec![];
+        let mut put = |secs: &mut Secs, id: SectionId, a: Asm| {
+            fields.push((Slot::Sec(id), a.fields));
+            secs.set(id, a.buf);
+        };
+        for (id, version) in [(SectionId::DebugCuIndex, if i % 2 == 0 { 5u16 } else { 2 }), (SectionId::DebugTuIndex, if i % 2 == 0 { 2 } else { 5 })] {
+            let mut cols = SectKind::all_for(version);
+            r.shuffle(&mut cols);
+            cols.truncate(2 + r.usize(2));
+            let slots = [4usize, 8, 2, 16][(i / 2) % 4];
+            let m = gindex::gen_unit_index(&mut r, version, cols, slots, (slots / 2).min(3), (i + (ctx.seed % 7) as usize) % gindex::KEY_PATTERNS, i % 2);
+            put(&mut secs, id, gindex::asm_unit_index(&m, enc.le));
+        }
+        {
+            let o = gindex::NamesOpts { fmt64: enc.fmt64, bucket_count: [2u32, 0, 1, 3][i % 4], n_names: 3, forced_hashes: i % 2 == 1, n_cu: 1 + i % 2, n_local_tu: i % 2, n_foreign_tu: (i / 2) % 2 };
+            let mut a = Asm::new(enc.le);
+            let mut st = vec![];
+            let _ = gindex::gen_name_index(&mut r, &o, &mut a, &mut st);
+            put(&mut secs, SectionId::DebugNames, a);
+            secs.set(SectionId::DebugStr, st);
+        }
+        {
+            let mut a = Asm::new(enc.le);
+            for k in 0..2 {
+                let mut set = gindex::gen_arange_set(&mut r, enc.fmt64 && k == 0, enc.addr);
+                set.tuples.truncate(4);
+                if k == 0 {
+                    set.tuples.push((0, 0));
+                }
+                gindex::asm_arange_set(&mut a, &mut set, 0);
+            }
+            put(&mut secs, SectionId::DebugAranges, a);
+        }
+        for id in [SectionId::DebugPubNames, SectionId::DebugPubTypes] {
+            let mut a = Asm::new(enc.le);
+            let mut set = gindex::gen_pub_set(&mut r, enc.fmt64);
+            set.entries.truncate(3);
+            gindex::asm_pub_set(&mut a, &set, i % 3 != 2, &[]);
+            let set2 = gindex::gen_pub_set(&mut r, false);
+            gindex::asm_pub_set(&mut a, &gimli_free_truncate(set2), true, &[0xaa; 2][..i % 3]);
+            put(&mut secs, id, a);
+        }
+        let (a, _) = gindex::gen_str_offsets(&mut r, enc.le);
+        put(&mut secs, SectionId::DebugStrOffsets, a);
+        let (a, _) = gindex::gen_addr(&mut r, enc.le);
+        put(&mut secs, SectionId::DebugAddr, a);
+        out.push(Seed { name: format!("gx{i}"), enc, secs, origin: "gen.index", fields, entries: &["index", "names", "aranges", "pubs", "tables"] });
+    }
+}
+
+fn gimli_free_truncate(mut s: crate::model::index::PubSetM) -> crate::model::index::PubSetM {
+    s.entries.truncate(2);
+    s
+}
+
+// ---- expressions
+
+fn expr_seeds(ctx: &Ctx, n: usize, out: &mut Vec<Seed>) {
+    for i in 0..n {
+        let enc = enc_rot(i, ctx.seed ^ 0xe59);
+        let mut r = Rng::new(mix64(ctx.seed ^ 0xe590_0000 ^ i as u64));
+        let mut best: Option<(Vec<u8>, Vec<usize>)> = None;
+        for attempt in 0..6usize {
+            let with_loc = i % 3 == 0;
+            let snippets = (5usize.saturating_sub(attempt)).max(1);
+            let mut b = gexpr::Builder::new(enc, &mut r, 1);
+            for _ in 0..snippets {
+                b.snippet();
+            }
+            if with_loc {
+                b.location_tail();
+            }
+            let (bytes, offs) = b.finish();
+            let better = best.as_ref().map_or(true, |x| bytes.len() < x.0.len());
+            if better && !bytes.is_empty() {
+                best = Some((bytes, offs));
+            }
+            if best.as_ref().map_or(false, |x| x.0.len() <= 120) {
+                break;
+            }
+        }
+        let Some((bytes, offs)) = best else { continue };
+        let mut fields = vec![];
+        for (k, &o) in offs.iter().enumerate() {
+            let end = offs.get(k + 1).copied().unwrap_or(bytes.len());
+            if o >= end {
+                continue;
+            }
+            fields.push(Field { off: o, len: 1, kind: FieldKind::Opcode, name: "expr.opcode" });
+            if end - o > 1 {
+                fields.push(Field { off: o + 1, len: end - o - 1, kind: FieldKind::Uleb, name: "expr.operands" });
+                if matches!(end - o - 1, 1 | 2 | 4 | 8) {
+                    fields.push(Field { off: o + 1, len: end - o - 1, kind: FieldKind::Other, name: "expr.fixed_operand" });
+                }
+            }
+        }
+        let mut secs = Secs::default();
+        secs.expr = bytes;
+        out.push(Seed { name: format!("ge{i}"), enc, secs, origin: "gen.expr", fields: vec![(Slot::Expr, fields)], entries: &["expr"] });
+    }
+}
+
+/// Seeds produced by the section generators of the other property modules: a deterministic
+/// (in `ctx.seed`), bounded set per generator, each section a few hundred bytes at most.
+pub fn extra_seeds(ctx: &Ctx) -> Vec<Seed> {
+    let q = ctx.quick();
+    let mut out = vec![];
+    info_seeds(ctx, if q { 8 } else { 32 }, &mut out);
+    line_seeds(ctx, if q { 8 } else { 32 }, &mut out);
+    cfi_seeds(ctx, if q { 8 } else { 32 }, &mut out);
+    lists_seeds(ctx, if q { 10 } else { 40 }, &mut out);
+    index_seeds(ctx, if q { 4 } else { 16 }, &mut out);
+    expr_seeds(ctx, if q { 8 } else { 32 }, &mut out);
+    let _ = shift;
+    out
 }
 
 fn entry(name: &str) -> &'static crate::props::c01::Entry {
@@ -93,6 +838,70 @@ pub fn regressions(ctx: &mut Ctx) {
         s.set(SectionId::DebugLine, a.buf);
         cases.push(("line", name, s.clone(), p));
         cases.push(("conv.line", name, s, p));
+    }
+    // fix ee1744a (found by the gen::line seeds of this check): a row address that is not a
+    // multiple of minimum_instruction_length (DW_LNS_fixed_advance_pc is not scaled; a
+    // mid-sequence DW_LNE_set_address need not be aligned) tripped a debug assertion in
+    // write::LineProgram::op_advance during conversion (silent truncation in release builds)
+    for (mil, mid_set_address) in [(4u8, false), (4, true), (0xf0, false), (0, false)] {
+        let mut a = Asm::new(true);
+        let m = a.begin_length(false);
+        a.u16(4);
+        let hl = a.len();
+        a.u32(0);
+        let hs = a.len();
+        a.u8(mil).u8(2).u8(1).u8(0xfb).u8(14).u8(13);
+        for l in [0u8, 1, 1, 1, 1, 0, 0, 0, 1, 0, 0, 1] {
+            a.u8(l);
+        }
+        a.u8(0);
+        a.cstr(b"f.c").uleb(0).uleb(0).uleb(0);
+        a.u8(0);
+        let hlen = (a.len() - hs) as u64;
+        a.patch_uint(hl, 4, hlen);
+        a.u8(0).uleb(9).u8(2).u64(0x1000);
+        a.u8(1);
+        if mid_set_address {
+            a.u8(0).uleb(9).u8(2).u64(0x1006);
+        } else {
+            a.u8(9).u16(2);
+        }
+        a.u8(1).u8(2).uleb(3).u8(1);
+        a.u8(0).uleb(1).u8(1);
+        a.end_length(m);
+        let mut s = Secs::default();
+        s.set(SectionId::DebugLine, a.buf);
+        cases.push(("conv.line", "row address not a multiple of minimum_instruction_length", s.clone(), p));
+        cases.push(("line", "row address not a multiple of minimum_instruction_length", s, p));
+    }
+    // fixes a0172f1 (A), c588a77 (B) and the line_advance fix (C), all found by this check's gen::line
+    // seeds: (A) VLIW rows converted into a target encoding with fewer operations per
+    // instruction, (B) a sequence tombstoned part-way, (C) a row with line >= 2^63 after a small one
+    {
+        let unhex = crate::rt::unhex;
+        let info = "0000001300040000000004016e2e63002f640000000000";
+        let abbrev = "01110003081b081017000000";
+        let a_line = "77000000050004002a000000010801fb0e0a000101010100000001010108022f640073756200020108020f02612e630000622e630001000502100000000d020301000502500000000b037e0401050706070108090400000204010100010166a7010700050241000000a906000403e7c9ab9a000303650601000101";
+        let b_line = "0000006c000400000026040201fb0e0d0001010101000000010000017375620000612e6300000000622e6300010304000005020000001010020301000502ffffffff0e037e04010507060701080900040a0b0c02000204010100060366000000000201010001010101560bf501000101";
+        let c_line = "0000007c0003000000250101fb0e0d0001010101000000010000017375620000612e6300000000622e6300010304000005020000001010020301000502000000500e037e04010507060701080900040a0b0c02000204010100060366000000000201010001010c81800409635d03ffffffffffffffffff009e010bf201000101";
+        let mut s = Secs::default();
+        s.set(SectionId::DebugLine, unhex(a_line));
+        cases.push(("conv.line", "VLIW rows into a target line encoding with maximum_operations_per_instruction 1", s, P { enc: Enc::new(true, false, 5, 4), ..p }));
+        let mut s = Secs::default();
+        s.set(SectionId::DebugLine, unhex(b_line));
+        cases.push(("conv.line", "sequence tombstoned part-way, then another sequence", s.clone(), P { enc: Enc::new(false, false, 4, 4), ..p }));
+        s.set(SectionId::DebugInfo, unhex(info));
+        s.set(SectionId::DebugAbbrev, unhex(abbrev));
+        cases.push(("conv.dwarf_from", "sequence tombstoned part-way, then another sequence", s.clone(), P { enc: Enc::new(false, false, 4, 4), ..p }));
+        cases.push(("conv.stepwise", "sequence tombstoned part-way, then another sequence", s, P { enc: Enc::new(false, false, 4, 4), ..p }));
+        let mut s = Secs::default();
+        s.set(SectionId::DebugLine, unhex(c_line));
+        cases.push(("conv.line", "row with line >= 2^63 after a row with a small line", s, P { enc: Enc::new(false, false, 3, 4), ..p }));
+        // (D) VLIW: DW_LNS_fixed_advance_pc 0 after a row with op_index 3 (same address, smaller op_index)
+        let d_line = "00000063000400000023010401fb0e0a0001010101000000017375620000612e6300000000622e63000103040000030200100d02030100030200500b037e040105070607010809000400020401010006036600000000020101010101070109000001037e000101";
+        let mut s = Secs::default();
+        s.set(SectionId::DebugLine, unhex(d_line));
+        cases.push(("conv.line", "VLIW: fixed_advance_pc 0 after a row with op_index > 0", s, P { enc: Enc::new(false, false, 4, 2), ..p }));
     }
     // die_ranges: low_pc near max + high_pc constant
     {
@@ -196,5 +1005,74 @@ pub fn regressions(ctx: &mut Ctx) {
             continue;
         }
         run_case(ctx, entry(ename), &s, p, None, "regress", what);
+    }
+}
+
+/// Debugging aid (GV_C01_DEBUG_SEEDS=1): why a generator seed is rejected by the converters.
+pub fn debug_seed_conversions(pool: &[Seed]) {
+    use gimli::write;
+    for sd in pool.iter().filter(|s| !s.is_base()) {
+        let endian = sd.enc.endian();
+        let dwarf: gimli::Dwarf<gimli::EndianSlice<gimli::RunTimeEndian>> = gimli::Dwarf::load(|id| Ok::<_, ()>(gimli::EndianSlice::new(sd.secs.get(id), endian))).unwrap();
+        if sd.entries.contains(&"conv.dwarf_from") {
+            let r = write::Dwarf::from(&dwarf, &|a| Some(write::Address::Constant(a)));
+            eprintln!("{} {} dwarf_from: {:?}", sd.name, sd.enc.label(), r.as_ref().map(|_| ()).map_err(|e| format!("{e:?}")));
+            if r.is_err() && sd.origin == "gen.info" {
+                eprintln!("   info {} abbrev {}", crate::rt::hex(sd.secs.get(SectionId::DebugInfo)), crate::rt::hex(sd.secs.get(SectionId::DebugAbbrev)));
+                let mut it = dwarf.units();
+                while let Ok(Some(h)) = it.next() {
+                    match dwarf.unit(h) {
+                        Err(e) => eprintln!("   unit: {e:?}"),
+                        Ok(u) => {
+                            let mut c = u.entries();
+                            loop {
+                                match c.next_dfs() {
+                                    Ok(Some(e)) => {
+                                        eprintln!("    <{:x}> {:?}", e.offset().0, e.tag());
+                                        for a in e.attrs() {
+                                            eprintln!("     {:?} {:?}", a.name(), a.value());
+                                        }
+                                    }
+                                    Ok(None) => break,
+                                    Err(e) => {
+                                        eprintln!("   entry err {e:?}");
+                                        break;
+                                    }
+                                }
+                            }
+                        }
+                    }
+                }
+            }
+            if let Ok(mut w) = r {
+                let mut sections = write::Sections::new(write::EndianVec::new(endian));
+                eprintln!("   write: {:?}", w.write(&mut sections));
+            }
+        }
+        if sd.entries.contains(&"conv.line") || sd.origin == "gen.info" {
+            let prog = dwarf.debug_line.program(gimli::DebugLineOffset(0), sd.enc.addr, Some(gimli::EndianSlice::new(b"/d", endian)), Some(gimli::EndianSlice::new(b"n.c", endian)));
+            match prog {
+                Err(e) => eprintln!("{} {} line parse: {e:?}", sd.name, sd.enc.label()),
+                Ok(prog) => {
+                    let mut w = write::Dwarf::new();
+                    let r = (|| -> write::ConvertResult<()> {
+                        let conv = w.read_line_program(&dwarf, prog.clone(), None, None)?;
+                        let _ = conv.convert(&|a| Some(write::Address::Constant(a)))?;
+                        Ok(())
+                    })();
+                    eprintln!("{} {} conv.line: {:?}", sd.name, sd.enc.label(), r.map_err(|e| format!("{e:?}")));
+                }
+            }
+        }
+        if sd.entries.contains(&"conv.frame") {
+            let mut sec = gimli::DebugFrame::from(gimli::EndianSlice::new(sd.secs.get(SectionId::DebugFrame), endian));
+            sec.set_address_size(sd.enc.addr);
+            let r = write::FrameTable::from(&sec, &|a| Some(write::Address::Constant(a)));
+            eprintln!("{} {} frame(debug_frame): {:?}", sd.name, sd.enc.label(), r.map(|_| ()).map_err(|e| format!("{e:?}")));
+            let mut sec = gimli::EhFrame::from(gimli::EndianSlice::new(sd.secs.get(SectionId::EhFrame), endian));
+            sec.set_address_size(sd.enc.addr);
+            let r = write::FrameTable::from(&sec, &|a| Some(write::Address::Constant(a)));
+            eprintln!("{} {} frame(eh_frame): {:?}", sd.name, sd.enc.label(), r.map(|_| ()).map_err(|e| format!("{e:?}")));
+        }
     }
 }
